@@ -2,6 +2,7 @@ use crate::{core::Report, Args};
 
 pub mod c03;
 pub mod c04;
+pub mod c05;
 pub mod l1;
 pub mod c07;
 pub mod c09;
@@ -17,6 +18,7 @@ pub fn dispatch(id: &str, args: &Args) -> Option<Report> {
     Some(match id {
         "C03" => c03::run(args),
         "C04" => c04::run(args),
+        "C05" => c05::run(args),
         "C07" => c07::run(args),
         "C09" => c09::run(args),
         "C10" => c10::run(args),
